@@ -25,10 +25,16 @@ one() {
   cd /; git -C /repo worktree remove --force $WT
 }
 export -f one
-printf "%s\n" C01 C02 C03 C04 C05 C06 C07 C08 C09 C10 C11 C12 C13 C14 C15 C16 C17 C18 C19 C20 | xargs -P $J -I{} bash -c "one {} $TMP"
+printf "%s\n" ${PIDS:-C01 C02 C03 C04 C05 C06 C07 C08 C09 C10 C11 C12 C13 C14 C15 C16 C17 C18 C19 C20} | xargs -P $J -I{} bash -c "one {} $TMP"
 OUT=/verif/seeded/STATUS.md
+# properties not re-run (PIDS given): keep their rows from the previous STATUS.md
+for p in C01 C02 C03 C04 C05 C06 C07 C08 C09 C10 C11 C12 C13 C14 C15 C16 C17 C18 C19 C20; do
+  [ -f $TMP/$p.md ] || grep "^| ${p}_" $OUT > $TMP/$p.md 2>/dev/null
+done
+NOTE=$(grep "not detected by design" $OUT)
 echo "# seeded changes against /repo HEAD $HEAD ($(date -u +%F))" > $OUT; echo >> $OUT
 echo "| seed | patch applies | demo clean/mutated | suite | check |" >> $OUT; echo "|---|---|---|---|---|" >> $OUT
 for p in C01 C02 C03 C04 C05 C06 C07 C08 C09 C10 C11 C12 C13 C14 C15 C16 C17 C18 C19 C20; do cat $TMP/$p.md >> $OUT 2>/dev/null; done
 rm -rf $TMP
+echo >> $OUT; echo "$NOTE" >> $OUT
 grep -c "| FAIL |" $OUT; grep -v "| FAIL |" $OUT | tail -n +5
